@@ -5,7 +5,8 @@
     the error; nothing is saved, the chain DB is untouched.
       * child of the best block: V, VerifySign, IsBlockValid, Update(best);
       * block k of the new branch during reorg.rollforward: after Update(root), Update(new 1..k-1),
-        then Update(old best); reorg returns the error (the state DB root is restored, fix d08861f6);
+        then Update(old best); reorg's error path restores the state DB root (fix d08861f6) and the
+        parameters (F41) and calls Update(old best) once more (fix 05cfcb8b, F42), then returns the error;
         the side branch stays in the block store and every further block of that branch repeats it.
     Call sequences recorded from the real ChainService (harness/engines/dposlib chain engine).
     [bad] says which block identifiers fail when executed. *)
@@ -69,7 +70,10 @@ Definition deliver_f (bad : Z -> bool) (nd : node) (blk : block) : node * foutco
           let st2 := fold_left (status_update (main_get main_r) [] (nd_size nd)) okb st1 in
           match failed with
           | Some _ =>
-            (mkNode (nd_size nd) (nd_self nd) (update_to_best (nd_main nd) nd st2) (nd_main nd) store' (nd_saved nd),
+            (* executeBlock's Update(old best), then reorg's own Update(old best) (fix 05cfcb8b, F42) *)
+            (mkNode (nd_size nd) (nd_self nd)
+                    (update_to_best (nd_main nd) nd (update_to_best (nd_main nd) nd st2))
+                    (nd_main nd) store' (nd_saved nd),
              FReorgFailed)
           | None =>
             (mkNode (nd_size nd) (nd_self nd) st2 (main_r ++ new_blocks) store' (Some (save (st_ls st2))), FO OReorg)
@@ -89,7 +93,7 @@ Definition deliver_f_calls (bad : Z -> bool) (nd : node) (blk : block) : list Z 
           let '(okb, failed) := ok_prefix bad nb in
           [1; k_no blk; 5; k_id blk; 2; k_no root; 3; k_id root] ++
           flat_map (fun b => [6; k_id b; best; 3; k_id b]) okb ++
-          match failed with Some b => [6; k_id b; best; 3; best] | None => [] end
+          match failed with Some b => [6; k_id b; best; 3; best; 3; best] | None => [] end
       | None => []
       end
   end.
